@@ -89,6 +89,22 @@ func (b *bb) checkOrder(what string, c prioCfg, got []delivery) {
 func (b *bb) scenarioPrio2() {
 	before := b.fails()
 	c := b.randPrioCfg()
+	if b.cycle("prio2-few", 4) == 2 {
+		// fewer items than handlers: all of them are in flight at once, nobody ever waits for a
+		// release - termination then depends only on the releases being accounted (C07)
+		// (no priority has more items than its share, so no redistribution is needed either)
+		share := map[uint]uint{}
+		if c.fair {
+			divider.Fair(c.prios, c.H, share)
+		} else {
+			divider.Rate(c.prios, c.H, share)
+		}
+		for _, p := range c.prios {
+			if c.n[p] > int(share[p]) {
+				c.n[p] = int(share[p])
+			}
+		}
+	}
 	inputs := map[uint]<-chan int{}
 	chans := map[uint]chan int{}
 	for _, p := range c.prios {
@@ -170,6 +186,16 @@ func (b *bb) scenarioPrio2() {
 	case <-done:
 	case <-time.After(20 * time.Second):
 		b.fail("C06 prio2: the discipline did not terminate within 20s although every item is released at once (%s)", c)
+		total := 0
+		for _, p := range c.prios {
+			total += c.n[p]
+		}
+		mu.Lock()
+		delivered := len(got)
+		mu.Unlock()
+		if int(atomic.LoadInt64(&finished)) == len(c.prios) && delivered == total && atomic.LoadInt64(&released) == int64(total) {
+			b.fail("C07 prio2: every input was closed and emptied (%d items written, all %d delivered) and every delivered item was released (%d Release calls returned), but output and error channels are still open 20s later (%s)", total, delivered, total, c)
+		}
 		b.note("prio2", c.String(), before)
 		return
 	}
@@ -193,6 +219,11 @@ func (b *bb) scenarioPrio2() {
 func (b *bb) scenarioSimple2() {
 	before := b.fails()
 	c := b.randPrioCfg()
+	if b.cycle("simple2-single", 4) == 1 {
+		// the smallest configuration: one input, one handler
+		p := uint(1 + b.r.Intn(9))
+		c = prioCfg{prios: []uint{p}, H: 1, caps: map[uint]int{p: b.r.Intn(3)}, n: map[uint]int{p: 1 + b.r.Intn(40)}, fair: b.r.Intn(2) == 0}
+	}
 	inputs := map[uint]<-chan int{}
 	chans := map[uint]chan int{}
 	total := 0
@@ -244,6 +275,7 @@ func (b *bb) scenarioSimple2() {
 		}
 	case <-time.After(20 * time.Second):
 		b.fail("C06 simple2: no termination within 20s (%s)", c)
+		b.fail("C02 simple2: %d of %d items were handled within 20s (every producer writes its items, as fast as they are taken, and closes its input) (%s)", atomic.LoadInt64(&handled), total, c)
 		b.note("simple2", c.String(), before)
 		return
 	}
@@ -256,6 +288,12 @@ func (b *bb) scenarioSimple2() {
 
 // v1 priority: graceful termination or Stop / cancel injected at a random point.
 func (b *bb) scenarioPrio1() {
+	if b.cycle("prio1-zero-share", 8) == 0 {
+		b.zeroShareGraceful()
+	}
+	if b.cycle("prio1-graceful-held", 2) == 1 {
+		b.gracefulHeldStop()
+	}
 	before := b.fails()
 	c := b.randPrioCfg()
 	mode := []string{"graceful", "stop", "cancel", "stop-busy", "graceful+stop", "graceful+cancel", "stop-noread"}[b.cycle("prio1", 7)]
@@ -455,6 +493,9 @@ func (b *bb) scenarioPrio1() {
 }
 
 func (b *bb) scenarioSimple1() {
+	if b.cycle("simple1-small", 4) == 1 {
+		b.simple1Small()
+	}
 	before := b.fails()
 	c := b.randPrioCfg()
 	mode := []string{"graceful+cancel-hooked", "graceful+cancel", "graceful+stop", "stop-busy", "graceful", "stop", "cancel", "stop+stop"}[b.cycle("simple1", 8)]
@@ -966,6 +1007,11 @@ func (h *hookCtx) Done() <-chan struct{} {
 // terminate (v2: close its output after the releases) and leave no goroutine behind
 func (b *bb) scenarioFaulty() {
 	before := b.fails()
+	if b.cycle("faulty-tail", 4) == 3 {
+		b.faultyTail()
+		b.note("faulty", "tail", before)
+		return
+	}
 	c := b.randPrioCfg()
 	v1 := b.cycle("faulty", 2) == 0
 	after := int32(3 + b.r.Intn(12))
@@ -1184,6 +1230,315 @@ func (b *bb) scenarioFaulty() {
 		b.leakProbe("divider error of v1 priority")
 	}
 	b.note("faulty", desc, before)
+}
+
+// C01 / C05 for the v1 simplified discipline with FEWER handlers than inputs (v1 accepts that:
+// some priorities get a zero share, see finding F1).  Every input is saturated from before the
+// creation, Handle blocks until the probe is over: the number of Handle calls running at the
+// same time never exceeds the HandlersQuantity that was asked for, and no priority has more calls
+// running than its share of that quantity (saturation: c05_share_v1).  Ended by Stop().
+func (b *bb) simple1Small() {
+	before := b.fails()
+	sets := [][]uint{{3, 2, 1}, {5, 4, 3, 2, 1}, {9, 6, 4, 1}}
+	prios := sets[b.r.Intn(len(sets))]
+	H := uint(1 + b.r.Intn(len(prios)-1))
+	fair := b.r.Intn(2) == 0
+	dv := p1.RateDivider
+	if fair {
+		dv = p1.FairDivider
+	}
+	share := dv(prios, H, nil)
+	desc := fmt.Sprintf("v1 NewSimple prios=%v H=%d fair=%v shares=%v, every input saturated from creation, Handle never returns before Stop", prios, H, fair, share)
+	inputs := map[uint]<-chan int{}
+	stop := make(chan struct{})
+	var writers sync.WaitGroup
+	for _, p := range prios {
+		ch := make(chan int, 2)
+		inputs[p] = ch
+		ch <- int(p) * 100000
+		ch <- int(p)*100000 + 1
+		for w := 0; w < 4; w++ {
+			writers.Add(1)
+			go func(p uint, w int) {
+				defer writers.Done()
+				for i := 0; ; i++ {
+					select {
+					case ch <- int(p)*100000 + 2 + w*10000 + i:
+					case <-stop:
+						return
+					}
+				}
+			}(p, w)
+		}
+	}
+	time.Sleep(2 * time.Millisecond) // the writers are parked on the full inputs
+	var mu sync.Mutex
+	running := map[uint]int{}
+	total, maxTotal := 0, 0
+	worst := map[uint]int{}
+	handle := func(ctx context.Context, item int) {
+		p := uint(item / 100000)
+		mu.Lock()
+		running[p]++
+		total++
+		if total > maxTotal {
+			maxTotal = total
+		}
+		if running[p] > worst[p] {
+			worst[p] = running[p]
+		}
+		mu.Unlock()
+		<-ctx.Done()
+		mu.Lock()
+		running[p]--
+		total--
+		mu.Unlock()
+	}
+	dsc, err := p1.NewSimple(p1.SimpleOpts[int]{Divider: dv, Handle: handle, HandlersQuantity: H, Inputs: inputs})
+	if err != nil {
+		// a constructor that rejects the configuration would be a repair of F1, not a violation
+		close(stop)
+		writers.Wait()
+		b.note("simple1", "small: rejected by the constructor: "+desc, before)
+		return
+	}
+	// settle: until the picture has not changed for 30 ms (at most 2 s)
+	last, stable := -1, 0
+	for w := 0; w < 200 && stable < 3; w++ {
+		time.Sleep(10 * time.Millisecond)
+		mu.Lock()
+		t := total
+		mu.Unlock()
+		if t == last {
+			stable++
+		} else {
+			last, stable = t, 0
+		}
+	}
+	mu.Lock()
+	if uint(maxTotal) > H {
+		b.fail("C01 simple1 small: %d Handle calls were running at the same time, HandlersQuantity is %d (%s)", maxTotal, H, desc)
+	}
+	for _, p := range prios {
+		if uint(worst[p]) > share[p] {
+			b.fail("C05 simple1 small: priority %d had %d Handle calls running at the same time, its share of %d handlers is %d (%s)", p, worst[p], H, share[p], desc)
+		}
+	}
+	mu.Unlock()
+	ret := make(chan struct{})
+	go func() { dsc.Stop(); close(ret) }()
+	select {
+	case <-ret:
+	case <-time.After(5 * time.Second):
+		b.fail("C16 simple1 small: Stop() did not return within 5s (%s)", desc)
+	}
+	close(stop)
+	writers.Wait()
+	b.leakProbe("Stop of v1 simple with fewer handlers than inputs")
+	b.note("simple1", "small: "+desc, before)
+}
+
+// C16 in the last wait of a graceful termination: GracefulStop() was called, every input is
+// closed and drained, some handlers are vacant and one holds an item whose feedback never comes -
+// the discipline waits for it (waitZeroActual).  Stop() / cancellation arriving NOW must end the
+// wait: Stop() returns, GracefulStop() returns, Err() is closed, within bounded time.
+func (b *bb) gracefulHeldStop() {
+	before := b.fails()
+	byCtx := b.cycle("graceful-held-ctx", 2) == 0
+	H := uint(2 + b.r.Intn(4))
+	prios := []uint{3, 1}
+	inputs := map[uint]<-chan int{}
+	for _, p := range prios {
+		ch := make(chan int, 1)
+		if p == 3 {
+			ch <- 300000
+		}
+		close(ch)
+		inputs[p] = ch
+	}
+	output := make(chan p1.Prioritized[int], 1)
+	feedback := make(chan uint, 1)
+	ctx, cancel := context.WithCancel(context.Background())
+	defer cancel()
+	desc := fmt.Sprintf("v1 priority, H=%d, priorities 3 (one item, closed) and 1 (empty, closed), the item is held and never fed back, GracefulStop() pending, then %s", H, map[bool]string{true: "the context is cancelled", false: "Stop() is called"}[byCtx])
+	dsc, err := p1.New(p1.Opts[int]{Ctx: ctx, Divider: p1.FairDivider, Feedback: feedback, HandlersQuantity: H, Inputs: inputs, Output: output})
+	if err != nil {
+		b.fail("C16 v1 New failed: %v", err)
+		return
+	}
+	select {
+	case <-output:
+	case <-time.After(5 * time.Second):
+		b.fail("C06 graceful-held: the only item was not delivered within 5s (%s)", desc)
+	}
+	gret := make(chan struct{})
+	go func() { dsc.GracefulStop(); close(gret) }()
+	// the discipline finds both inputs drained and starts waiting for the feedback of the held item
+	time.Sleep(20 * time.Millisecond)
+	select {
+	case <-gret:
+		b.fail("C07 graceful-held: GracefulStop() returned although a delivered item was not fed back (%s)", desc)
+	default:
+	}
+	sret := make(chan struct{})
+	go func() {
+		if byCtx {
+			cancel()
+		}
+		dsc.Stop()
+		close(sret)
+	}()
+	select {
+	case <-sret:
+	case <-time.After(5 * time.Second):
+		b.fail("C16 graceful-held: Stop() did not return within 5s (%s)", desc)
+		// let the discipline go, so that the run can continue
+		select {
+		case feedback <- 3:
+		case <-time.After(time.Second):
+		}
+	}
+	select {
+	case <-gret:
+	case <-time.After(5 * time.Second):
+		b.fail("C16 graceful-held: the pending GracefulStop() did not return within 5s after Stop()/cancellation (%s)", desc)
+	}
+	select {
+	case _, open := <-dsc.Err():
+		if open {
+			select {
+			case _, open = <-dsc.Err():
+			case <-time.After(5 * time.Second):
+			}
+		}
+		if open {
+			b.fail("C16 graceful-held: Err() was not closed within 5s after Stop()/cancellation (%s)", desc)
+		}
+	case <-time.After(5 * time.Second):
+		b.fail("C16 graceful-held: Err() was not closed within 5s after Stop()/cancellation (%s)", desc)
+	}
+	b.leakProbe("Stop during the last wait of a graceful termination of v1 priority")
+	b.note("prio1", "graceful-held "+desc, before)
+}
+
+// Known finding F1 seen from C07 (v1 only: v2's constructor rejects the configuration): priorities
+// 3, 2, 1, one handler, FairDivider - the shares are 1, 0, 0.  Every input is closed and empty,
+// nothing was ever delivered: GracefulStop() must return promptly.  It does not: the closed input
+// of a priority whose share is zero is never looked at, so it is never marked drained
+// (Lean: Cqos.C07.c07_v1_zero_share_graceful_hangs; c07_graceful_prompt_reachable needs "every
+// registered priority has a share").
+func (b *bb) zeroShareGraceful() {
+	before := b.fails()
+	inputs := map[uint]<-chan int{}
+	for _, p := range []uint{3, 2, 1} {
+		ch := make(chan int, 1)
+		close(ch)
+		inputs[p] = ch
+	}
+	output := make(chan p1.Prioritized[int], 1)
+	feedback := make(chan uint, 1)
+	dsc, err := p1.New(p1.Opts[int]{Divider: p1.FairDivider, Feedback: feedback, HandlersQuantity: 1, Inputs: inputs, Output: output})
+	if err != nil {
+		// a constructor that rejects the configuration (as v2 does) repairs the finding
+		b.note("prio1", "zero-share graceful: rejected by the constructor", before)
+		return
+	}
+	done := make(chan struct{})
+	go func() { dsc.GracefulStop(); close(done) }()
+	select {
+	case <-done:
+	case <-time.After(3 * time.Second):
+		b.fail("C07 ver=v1 zero-share=true GracefulStop() did not return within 3s although every input (priorities 3, 2, 1; FairDivider, 1 handler: shares 1, 0, 0) is closed and empty and nothing was ever delivered")
+		dsc.Stop()
+		select {
+		case <-done:
+		case <-time.After(5 * time.Second):
+			b.fail("C16 zero-share graceful: Stop() did not end the pending GracefulStop() within 5s")
+		}
+	}
+	b.leakProbe("zero-share graceful stop of v1 priority")
+	b.note("prio1", "zero-share graceful", before)
+}
+
+// C15 in the tail rounds: the divider fault first shows up when every input is already closed
+// and marked drained while items are still in flight ("handlers in pairs": Fair with every
+// share rounded up to an even number, wrong only for odd shares).  Two priorities, four
+// handlers: the divisions 4/[a,b], 4/[a], 2/[a] are correct; with three items of a in flight
+// the vacant handler is divided among the uncrowded priorities, 1/[b], and the divider adds 2.
+// Only a fault that did fire has to be reported: the items are held until it has.
+func (b *bb) faultyTail() {
+	pa := uint(2 + b.r.Intn(50))
+	pb := uint(1 + b.r.Intn(int(pa)-1))
+	if b.r.Intn(2) == 0 {
+		pa, pb = pb+uint(60), pa
+	}
+	var fired int32
+	pairs := func(prios []uint, q uint, dist map[uint]uint) {
+		shares := make(map[uint]uint, len(prios))
+		divider.Fair(prios, q, shares)
+		for p, sh := range shares {
+			if sh%2 == 1 {
+				atomic.StoreInt32(&fired, 1)
+			}
+			dist[p] += sh + sh%2
+		}
+	}
+	desc := fmt.Sprintf("priorities %d (3 items, closed) and %d (empty, closed), 4 handlers, pairs divider", pa, pb)
+	high := make(chan int, 3)
+	low := make(chan int, 1)
+	for i := 0; i < 3; i++ {
+		high <- int(pa)*100000 + i
+	}
+	close(high)
+	close(low)
+	dsc, err := p2.New(p2.Opts[int]{Divider: pairs, HandlersQuantity: 4, Inputs: map[uint]<-chan int{pa: high, pb: low}})
+	if err != nil {
+		b.fail("C15 faulty tail: unexpected constructor error %v (%s)", err, desc)
+		return
+	}
+	var got []uint
+	deadline := time.After(10 * time.Second)
+	for len(got) < 3 {
+		select {
+		case it, ok := <-dsc.Output():
+			if !ok {
+				b.fail("C07 faulty tail: the output was closed after %d of 3 items, none of them released (%s)", len(got), desc)
+				return
+			}
+			got = append(got, it.Priority)
+		case <-deadline:
+			b.fail("C06 faulty tail: only %d of 3 items were delivered within 10s although 4 handlers are free (%s)", len(got), desc)
+			go func() {
+				for range dsc.Output() {
+				}
+			}()
+			return
+		}
+	}
+	for w := 0; atomic.LoadInt32(&fired) == 0 && w < 5000; w++ {
+		time.Sleep(time.Millisecond)
+	}
+	didFire := atomic.LoadInt32(&fired) == 1
+	for _, p := range got {
+		dsc.Release(p)
+	}
+	select {
+	case e, ok := <-dsc.Err():
+		if didFire && (!ok || e == nil) {
+			b.fail("C15 faulty tail: the division of 1 among [%d] added 2 in a round made after all inputs were drained, but Err() yielded %v (open=%v): the fault is swallowed (%s)", pb, e, ok, desc)
+		}
+	case <-time.After(10 * time.Second):
+		b.fail("C15 faulty tail: the discipline did not terminate within 10s after all items were released (%s)", desc)
+	}
+	select {
+	case _, ok := <-dsc.Output():
+		if ok {
+			b.fail("C15 faulty tail: an item was delivered after the inputs were drained (%s)", desc)
+		}
+	case <-time.After(10 * time.Second):
+		b.fail("C15 faulty tail: the output was not closed within 10s (%s)", desc)
+	}
+	b.leakProbe("tail divider error of v2 priority")
 }
 
 // C06: nothing is in flight and one priority alone has data, all of it available up-front
@@ -1561,4 +1916,69 @@ func (b *bb) scenarioUtils() {
 	}
 	_ = sum
 	b.note("utils", "shared priorities slice", before)
+	b.utilsOwnSets()
+}
+
+// C20 for the auxiliary functions of both versions: callers that share nothing (every goroutine
+// passes its own slice, and a different set of priorities) get the results a lone caller gets
+func (b *bb) utilsOwnSets() {
+	before := b.fails()
+	sets := [][]uint{{3, 2, 1}, {70, 20, 10}, {4, 1}, {9, 5, 2, 1}}
+	type res struct {
+		nf           bool
+		minNF, maxNF uint
+		st           bool
+		minST, maxST uint
+	}
+	one := func(v1 bool, ps []uint) res {
+		own := append([]uint(nil), ps...)
+		if v1 {
+			return res{
+				p1.IsNonFatalConfig(own, p1.FairDivider, 6), p1.PickUpMinNonFatalQuantity(own, p1.RateDivider, 40), p1.PickUpMaxNonFatalQuantity(own, p1.FairDivider, 40),
+				p1.IsSuitableConfig(own, p1.RateDivider, 30, 20), p1.PickUpMinSuitableQuantity(own, p1.RateDivider, 60, 20), p1.PickUpMaxSuitableQuantity(own, p1.FairDivider, 60, 20),
+			}
+		}
+		return res{
+			utils.IsNonFatalConfig(own, divider.Fair, 6), utils.PickUpMinNonFatalQuantity(own, divider.Rate, 40), utils.PickUpMaxNonFatalQuantity(own, divider.Fair, 40),
+			utils.IsSuitableConfig(own, divider.Rate, 30, 20), utils.PickUpMinSuitableQuantity(own, divider.Rate, 60, 20), utils.PickUpMaxSuitableQuantity(own, divider.Fair, 60, 20),
+		}
+	}
+	for _, v1 := range []bool{true, false} {
+		want := make([]res, len(sets))
+		for i, ps := range sets {
+			want[i] = one(v1, ps)
+		}
+		var wg sync.WaitGroup
+		var mu sync.Mutex
+		reported := false
+		for g := range sets {
+			wg.Add(1)
+			go func(g int) {
+				defer wg.Done()
+				defer func() {
+					if r := recover(); r != nil {
+						mu.Lock()
+						defer mu.Unlock()
+						if !reported {
+							reported = true
+							b.fail("C20 utils v1=%v: a helper panicked (%v) when called with priorities %v while other goroutines called the helpers with their own, different priorities", v1, r, sets[g])
+						}
+					}
+				}()
+				for i := 0; i < 40; i++ {
+					if got := one(v1, sets[g]); got != want[g] {
+						mu.Lock()
+						if !reported {
+							reported = true
+							b.fail("C20 utils v1=%v: with priorities %v a lone caller gets %+v, but %+v while other goroutines call the helpers with their own, different priorities: the calls share state", v1, sets[g], want[g], got)
+						}
+						mu.Unlock()
+						return
+					}
+				}
+			}(g)
+		}
+		wg.Wait()
+	}
+	b.note("utils", "own priority sets", before)
 }
